@@ -31,6 +31,15 @@ MC_Worlds ==
   ELSE IF w = "free" THEN {Pts(MC_T)}
   ELSE { Pts(MC_T), Pts(MC_T) \ {n \div 2}, Pts(MC_T) \ {0}, Pts(MC_T) \ {n - 1}, Pts(MC_T) \ {1, n - 2} }
 
+\* the two checker objects: "same" = both accept the same set (two objects, one function); "alt" = the
+\* second one may also wall off the middle of the lattice or reject point 0 (the usual start)
+MC_WorldPairs ==
+  LET n == MC_T.n IN
+  IF EnvOr("V_WORLDS2", "same") = "same" THEN {<<W, W>> : W \in MC_Worlds}
+  ELSE {<<W, W2>> : W \in MC_Worlds, W2 \in {Pts(MC_T) \ {n \div 2}, Pts(MC_T) \ {0}}}
+\* "own": problem i is always installed with checker object i; "free": every combination
+MC_SetupChoices == IF EnvOr("V_CHECKERS", "own") = "free" THEN (1 .. 2) \X (1 .. 2) ELSE {<<1, 1>>, <<2, 2>>}
+
 \* bounds of the space: all points, or the index interval 0..V_REGION_HI (on a ring: an arc)
 RegionHi == EnvInt("V_REGION_HI", MC_T.n - 1)
 MC_Region == {p \in Pts(MC_T) : p <= RegionHi}
